@@ -70,6 +70,8 @@ func checkC05(c *Ctx, e *Env) {
 	ruleArith(c, e, "C05.ARITH", func(ep *EntryPoint) bool {
 		return ep.Service == "basket" && (ep.Kind == "msg" || ep.Kind == "invariant")
 	})
+	ruleBasketScale(c, m, r)
+	ruleInvariantsStateOnly(c, m, NewGraph(m.P), "C05.INV")
 	nPaths := 0
 	for _, h := range r.Handlers {
 		touches := false
@@ -347,4 +349,73 @@ func ruleBasketInvariant(c *Ctx, m *Model) {
 		}
 	}
 	c.Check(nOps > 0, "C05.INV", "SupplyInvariant#operations", p.Pos(fn.Pos()), fmt.Sprintf("all %d decimal operations reachable from the invariant are total and exact (parse, exact add, compare, scale, big-integer extraction)", nOps))
+}
+
+// ruleBasketScale (C05.SCALE): the registered basket-supply invariant converts a basket's credits to tokens with
+// 10^Basket.Exponent, the handlers mint and burn with 10^CreditType.Precision. The two agree — and the invariant
+// "never reports a failure in a reachable state" — only while every write of a Basket row stores, as Exponent,
+// the Precision of the credit type fetched by the row's own CreditTypeAbbrev (or leaves the stored value alone).
+// Round-7 seed C09-14 stored the client's deprecated MsgCreate.Exponent instead.
+func ruleBasketScale(c *Ctx, m *Model, r *E1) {
+	p := m.P
+	n := 0
+	seen := map[string]bool{}
+	for _, h := range r.Handlers {
+		if h.EP.Kind == "canary" {
+			continue
+		}
+		for _, o := range h.Outs {
+			st := o.St
+			for i := range st.events {
+				ev := &st.events[i]
+				if ev.Kind != "write" || ev.Table == nil || ev.Table.Name != "Basket" || ev.Row == nil || ev.OpKind == "delete" {
+					continue
+				}
+				k := h.Key + "#" + siteKey(ev)
+				n++
+				exp := st.canon(ev.Row["Exponent"])
+				why := ""
+				switch {
+				case ev.Old != nil && ev.Old.Row != nil && st.canon(ev.Old.Row["Exponent"]) == exp:
+					// unchanged copy of the stored value
+				case creditTypeRowRe.MatchString(exp):
+					var id int
+					fmt.Sscanf(creditTypeRowRe.FindStringSubmatch(exp)[1], "%d", &id)
+					ct := st.mem[id]
+					key, ok := "", false
+					if ct != nil {
+						key, ok = originArg(ct.Origin, "get:Get(")
+					}
+					abbr := st.canon(ev.Row["CreditTypeAbbrev"])
+					if !ok || st.find(key) != st.find(abbr) {
+						why = "the stored Exponent is " + exp + ", the precision of the credit type fetched by " + key + ", but the row's CreditTypeAbbrev is " + abbr
+					}
+				default:
+					why = "the stored Exponent is " + exp + ", not the Precision of the credit type the basket names"
+				}
+				if why != "" {
+					if !seen[k] {
+						seen[k] = true
+						c.Violate("C05.SCALE", k, p.Pos(ev.Pos.Pos()), why+": the registered basket-supply invariant multiplies the basket's credits by 10^Exponent while Put/Take mint and burn with 10^precision — it would report a fully backed basket as imbalanced {"+outcomeLabel(h, o)+"}", nil)
+					}
+					continue
+				}
+				if !seen[k+"#ok"] {
+					seen[k+"#ok"] = true
+				}
+			}
+		}
+	}
+	if len(seen) > 0 {
+		bad := false
+		for k := range seen {
+			if !strings.HasSuffix(k, "#ok") {
+				bad = true
+			}
+		}
+		if bad {
+			return
+		}
+	}
+	c.Check(n > 0, "C05.SCALE", "Basket.Exponent#writers", "-", fmt.Sprintf("%d Basket row writes on committed paths: each stores the Precision of the credit type fetched by the row's own CreditTypeAbbrev as Exponent, or leaves the stored Exponent unchanged — the scale the registered invariant converts with is the scale Put/Take mint and burn with", n))
 }
